@@ -41,7 +41,7 @@ CheckStepP(want, pre, e, post, acc, line) ==
   /\ (want["C14"]) => (C14Pause(pre, e, post, line) /\ C14Bank(pre, e, post, line))
   /\ (want["C01"]) => C01(pre, e, post, line)
   /\ (want["C02"]) => C02(pre, e, post, acc.c02, line)
-  /\ (want["C03"]) => C03(pre, e, post, line)
+  /\ (want["C03"]) => (C03(pre, e, post, line) /\ C03Venue(pre, e, post, line))
   /\ (want["C06"]) => C06(pre, e, post, line)
   /\ (want["C16"]) => C16(pre, e, post, line)
   /\ (want["C17"]) => C17(pre, e, post, line)
